@@ -80,7 +80,7 @@ def run(tier):
         rule="collapse-prone valid polygons (slivers, combs, pinched necks, thin frames with a hole, serpentines) at 1-3 levels; "
              "antecedent (no centre visited more than twice) evaluated by TLC on the boundary it routes itself; non-trivial = antecedent "
              "holds and some centre is visited twice (record_stats.atmosttwice_and_repeats)",
-        min_valid_frac=0.3, post=post)
+        min_valid_frac=0.3, post=post, codesnap=(tier == "thorough"))
 
 
 def replay(path):
